@@ -34,13 +34,14 @@ enum
     K_GET,        // device_manager_get(index) incl. out of range
     K_OPEN_ALL,   // open + close every enumerated camera/storage identifier
     K_DEFAULTS,   // select_first / select_default
+    K_TWO_MANAGERS, // a second device manager over the same libraries; one of the two is destroyed, the other goes on
     K_COUNT
 };
 
 const VhKindSpec kKinds[K_COUNT] = {
     { "SLOT", 6, 255, 65535, 0, 0 },          { "DEV", 8, 255, 65535, 65535, 0 },        { "SELECT_G", 10, 255, 65535, 65535, 65535 },
     { "SELECT_RAW", 5, 255, 65535, 65535, 65535 }, { "GET", 2, 255, 65535, 0, 0 },       { "OPEN_ALL", 2, 0, 0, 0, 0 },
-    { "DEFAULTS", 1, 7, 0, 0, 0 },
+    { "DEFAULTS", 1, 7, 0, 0, 0 },                 { "TWO_MANAGERS", 1, 3, 0, 0, 0 },
 };
 
 enum
@@ -62,6 +63,7 @@ enum
     CL_DUPLICATE_NAMES,
     CL_BAD_INDEX,
     CL_ODD_KIND,
+    CL_TWO_MANAGERS,
 };
 
 const VhSpec kSpec = {
@@ -72,7 +74,8 @@ const VhSpec kSpec = {
     { "C12", nullptr },
     { "mock_driver_loaded", "real_common_driver", "broken_library", "driver_init_returns_null", "describe_fails", "pattern_with_metacharacters",
       "verdict_differs_from_substring_match", "verdict_differs_from_case_sensitive_match", "two_devices_match", "no_device_matches", "raw_pattern_ok",
-      "raw_pattern_err", "nul_padded_name", "opened_every_identifier", "duplicate_names", "index_out_of_range", "unusual_kind", nullptr },
+      "raw_pattern_err", "nul_padded_name", "opened_every_identifier", "duplicate_names", "index_out_of_range", "unusual_kind",
+      "second_device_manager_one_destroyed", nullptr },
     { "C12 non-trivial: a pattern with >=1 metacharacter whose verdict differs from substring or case-sensitive matching for some enumerated "
       "name, or >=2 devices matching (first-match order observable), or a driver subset with a broken library",
       nullptr },
@@ -620,6 +623,41 @@ check_selected(Ctx& x, const char* what, DeviceStatusCode r, const DeviceIdentif
                  (int)kind, pat.c_str(), id.driver_id, id.device_id, id.name, e.slot, e.device_id, e.name.c_str());
 }
 
+// open + close every enumerated, successfully described camera / storage identifier through `dm`
+void
+open_all(Ctx& x, DeviceManager* dm)
+{
+    for (size_t i = 0; i < x.en.size() && !x.c.ended; ++i) {
+        const Enumerated& e = x.en[i];
+        if (!e.ok || (e.kind != DeviceKind_Camera && e.kind != DeviceKind_Storage))
+            continue;
+        DeviceIdentifier id;
+        if (device_manager_get(&id, dm, (uint32_t)i) != Device_Ok)
+            continue;
+        if (e.kind == DeviceKind_Camera) {
+            Camera* c = camera_open(dm, &id);
+            if (!c) {
+                x.c.fail("C12", "open-failed", "camera", "camera_open failed for enumerated identifier [%d.%d] \"%.40s\"", e.slot, e.device_id, e.name.c_str());
+                break;
+            }
+            if (c->device.identifier.kind != DeviceKind_Camera || e.name != c->device.identifier.name)
+                x.c.fail("C12", "open-wrong-device", "camera", "opening [%d.%d] \"%.40s\" gave a device that calls itself kind %d \"%.40s\"", e.slot, e.device_id,
+                         e.name.c_str(), (int)c->device.identifier.kind, c->device.identifier.name);
+            camera_close(c);
+        } else {
+            Storage* s = storage_open(dm, &id);
+            if (!s) {
+                x.c.fail("C12", "open-failed", "storage", "storage_open failed for enumerated identifier [%d.%d] \"%.40s\"", e.slot, e.device_id, e.name.c_str());
+                break;
+            }
+            if (s->device.identifier.kind != DeviceKind_Storage || e.name != s->device.identifier.name)
+                x.c.fail("C12", "open-wrong-device", "storage", "opening [%d.%d] \"%.40s\" gave a device that calls itself kind %d \"%.40s\"", e.slot, e.device_id,
+                         e.name.c_str(), (int)s->device.identifier.kind, s->device.identifier.name);
+            storage_close(s);
+        }
+    }
+}
+
 } // namespace
 
 // called by the trampolines
@@ -1020,35 +1058,48 @@ vh_run(const VhTok* tape, size_t n, VhReport* rep)
                 if (x.c.ended)
                     break;
                 x.c.trace("OPEN every enumerated camera and storage identifier");
-                for (size_t i = 0; i < x.en.size() && !x.c.ended; ++i) {
-                    const Enumerated& e = x.en[i];
-                    if (!e.ok || (e.kind != DeviceKind_Camera && e.kind != DeviceKind_Storage))
-                        continue;
-                    DeviceIdentifier id;
-                    if (device_manager_get(&id, &x.dm, (uint32_t)i) != Device_Ok)
-                        continue;
-                    if (e.kind == DeviceKind_Camera) {
-                        Camera* c = camera_open(&x.dm, &id);
-                        if (!c) {
-                            x.c.fail("C12", "open-failed", "camera", "camera_open failed for enumerated identifier [%d.%d] \"%.40s\"", e.slot, e.device_id, e.name.c_str());
-                            break;
-                        }
-                        if (c->device.identifier.kind != DeviceKind_Camera || e.name != c->device.identifier.name)
-                            x.c.fail("C12", "open-wrong-device", "camera", "opening [%d.%d] \"%.40s\" gave a device that calls itself kind %d \"%.40s\"", e.slot, e.device_id,
-                                     e.name.c_str(), (int)c->device.identifier.kind, c->device.identifier.name);
-                        camera_close(c);
-                    } else {
-                        Storage* s = storage_open(&x.dm, &id);
-                        if (!s) {
-                            x.c.fail("C12", "open-failed", "storage", "storage_open failed for enumerated identifier [%d.%d] \"%.40s\"", e.slot, e.device_id, e.name.c_str());
-                            break;
-                        }
-                        if (s->device.identifier.kind != DeviceKind_Storage || e.name != s->device.identifier.name)
-                            x.c.fail("C12", "open-wrong-device", "storage", "opening [%d.%d] \"%.40s\" gave a device that calls itself kind %d \"%.40s\"", e.slot, e.device_id,
-                                     e.name.c_str(), (int)s->device.identifier.kind, s->device.identifier.name);
-                        storage_close(s);
-                    }
+                open_all(x, &x.dm);
+                x.c.cls(CL_OPENED_ALL);
+                break;
+            }
+            case K_TWO_MANAGERS: {
+                // A second device manager (a second runtime in the same process) over the same driver
+                // libraries; both are used, one is destroyed, the survivor must still enumerate and open
+                // everything: nothing a driver library keeps per process may die with the first manager.
+                ensure_init(x);
+                if (x.c.ended)
+                    break;
+                DeviceManager dm2;
+                memset(&dm2, 0, sizeof dm2);
+                bool keep_second = t.a & 1;
+                x.c.trace("SECOND device manager: init, use both, destroy the %s one, use the survivor", keep_second ? "first" : "second");
+                if (device_manager_init(&dm2, reporter) != Device_Ok) {
+                    x.c.fail("C12", "init-failed", "second-device-manager", "device_manager_init of a second manager returned an error");
+                    break;
                 }
+                if (device_manager_count(&dm2) != x.en.size()) {
+                    x.c.fail("C12", "enumeration-count", "second-device-manager", "the second manager counts %u devices, the loaded drivers describe %zu",
+                             device_manager_count(&dm2), x.en.size());
+                    device_manager_destroy(&dm2);
+                    break;
+                }
+                DeviceManager* dying = keep_second ? &x.dm : &dm2;
+                DeviceManager* survivor = keep_second ? &dm2 : &x.dm;
+                if (t.a & 2)
+                    open_all(x, survivor);
+                if (!x.c.ended)
+                    open_all(x, dying);
+                device_manager_destroy(dying);
+                if (keep_second)
+                    x.dm = dm2;
+                if (!x.c.ended) {
+                    uint32_t n2 = device_manager_count(&x.dm);
+                    if (n2 != x.en.size())
+                        x.c.fail("C12", "enumeration-count", "after-other-manager-destroyed", "the surviving manager counts %u devices, expected %zu", n2, x.en.size());
+                }
+                if (!x.c.ended)
+                    open_all(x, &x.dm);
+                x.c.cls(CL_TWO_MANAGERS);
                 x.c.cls(CL_OPENED_ALL);
                 break;
             }
